@@ -346,20 +346,27 @@ Definition carries_collapse (d : dkind) : bool :=
 
 Inductive wfclause := WOrphan | WNested | WCollapse.
 
+(* the three named conditions, per node *)
+Definition orphan_b (rk anc : list nkind) (k : nkind) : bool :=
+  (mem k [ND OMPDo; ND OMPSingle; ND OMPMaster; ND OMPTaskloop; NS OMPTaskwait] && negb (any_in omp_par anc))
+  || (mem k [ND OMPLoop] && negb (any_in (ND OMPTarget :: omp_par) anc))
+  || (mem k [ND ACCLoop] && negb (any_in acc_compute anc) && negb (mem (NS ACCRoutine) rk)).
+
+Definition nested_b (anc : list nkind) (k : nkind) : bool :=
+  (mem k omp_par && any_in omp_par anc) || (mem k acc_compute && any_in acc_compute anc).
+
+Definition collapse_bad (n : tree) : bool :=
+  match n with
+  | Dir d (Some c) b => carries_collapse d && negb (perfect_b c b)
+  | _ => false
+  end.
+
 (* clause violated at one node (None = the node satisfies the three conditions) *)
 Definition wf_node (rk : list nkind) (p : list nkind * tree) : option wfclause :=
-  let anc := fst p in let n := snd p in
-  let k := kind_of n in
-  if (mem k [ND OMPDo; ND OMPSingle; ND OMPMaster; ND OMPTaskloop; NS OMPTaskwait] && negb (any_in omp_par anc))
-     || (mem k [ND OMPLoop] && negb (any_in (ND OMPTarget :: omp_par) anc))
-     || (mem k [ND ACCLoop] && negb (any_in acc_compute anc) && negb (mem (NS ACCRoutine) rk))
-  then Some WOrphan
-  else if (mem k omp_par && any_in omp_par anc) || (mem k acc_compute && any_in acc_compute anc)
-  then Some WNested
-  else match n with
-       | Dir d (Some c) b => if carries_collapse d && negb (perfect_b c b) then Some WCollapse else None
-       | _ => None
-       end.
+  if orphan_b rk (fst p) (kind_of (snd p)) then Some WOrphan
+  else if nested_b (fst p) (kind_of (snd p)) then Some WNested
+  else if collapse_bad (snd p) then Some WCollapse
+  else None.
 
 Definition wf_viol (r : routine) : list (wfclause * nkind) :=
   flat_map (fun p => match wf_node (rkinds r) p with
